@@ -593,8 +593,14 @@ def _net_desc(net, iface):
 
 
 def _run_err(sim):
+    import warnings as _w
     try:
-        sim.run()
+        with _w.catch_warnings():
+            # a user who runs with deprecation warnings as errors (`python -W error::DeprecationWarning`, pytest's
+            # filterwarnings=error): a well-formed history goes through the package's own NON-deprecated paths only, so nothing
+            # issued from inside acnportal may turn into an exception half-way through a hand-over
+            _w.filterwarnings("error", category=DeprecationWarning, module=r"acnportal\..*")
+            sim.run()
     except _Crash:
         return "SchedulerFailed"
     except Exception as e:  # noqa
